@@ -132,8 +132,14 @@ fn v4_parser<B: BufRead>(
     // Two-octet scalar octet count for following hashed subpacket data.
     // Hashed subpacket data set (zero or more subpackets).
     let hsub_len: usize = i.read_be_u16()?.into();
-    let hsub_raw = i.read_take(hsub_len);
-    let hsub = subpackets(packet_header.version(), hsub_len, hsub_raw, depth)?;
+    let hsub_raw = i.take_bytes(hsub_len)?.freeze();
+    let hsub = subpackets(
+        packet_header.version(),
+        hsub_len,
+        hsub_raw.clone().reader(),
+        depth,
+    )?;
+    ensure_hashed_area_canonical(&hsub, &hsub_raw)?;
     debug!(
         "found {} hashed subpackets in {} bytes",
         hsub.len(),
@@ -186,8 +192,14 @@ fn v6_parser<B: BufRead>(
     // Four-octet scalar octet count for following hashed subpacket data.
     // Hashed subpacket data set (zero or more subpackets).
     let hsub_len: usize = i.read_be_u32()?.try_into()?;
-    let hsub_raw = i.read_take(hsub_len);
-    let hsub = subpackets(packet_header.version(), hsub_len, hsub_raw, depth)?;
+    let hsub_raw = i.take_bytes(hsub_len)?.freeze();
+    let hsub = subpackets(
+        packet_header.version(),
+        hsub_len,
+        hsub_raw.clone().reader(),
+        depth,
+    )?;
+    ensure_hashed_area_canonical(&hsub, &hsub_raw)?;
     debug!(
         "found {} hashed subpackets in {} bytes",
         hsub.len(),
@@ -236,6 +248,22 @@ fn v6_parser<B: BufRead>(
         usub,
         salt.to_vec(),
     ))
+}
+
+/// The digest of a signature covers the hashed subpacket area as `hash_signature_data` writes it
+/// back from the parsed subpackets. Refuse areas that would be written back differently from what
+/// was received (e.g. a boolean subpacket with a value other than 0 or 1): for those the octets
+/// on the wire would not be the octets that are signed.
+fn ensure_hashed_area_canonical(subpackets: &[Subpacket], raw: &[u8]) -> Result<()> {
+    let mut written = Vec::with_capacity(raw.len());
+    for subpacket in subpackets {
+        subpacket.to_writer(&mut written)?;
+    }
+    ensure!(
+        written == raw,
+        "hashed subpacket area is not in canonical form"
+    );
+    Ok(())
 }
 
 fn subpackets<B: BufRead>(
